@@ -273,6 +273,10 @@ func opCut(r *rand.Rand, n int, tier string) {
 		if tier != "thorough" && len(content) > 150 {
 			step = len(content)/150 + 1
 		}
+		if tier == "thorough" && len(content) > 400 {
+			// every offset of short inputs; ~400 offsets of longer ones, each under all seven signals
+			step = len(content)/400 + 1
+		}
 		off := r.Intn(step)
 		for cut := off; cut <= len(content); cut += step {
 			sig := []string{"eof", "fail", "faild", "zeros", "failz", "chunkd", "chunke"}[r.Intn(7)]
